@@ -156,8 +156,18 @@ def instsOfArc (M : Model) (i : Nat) (a : Arc) (w : Word) : Option (List Inst) :
               lc := none, rc := some r, ciExt := pl, src := a.src, dst := a.dst } : Inst)
     pure (roots ++ inner ++ leaves)
 
+/-- the arc index and end states of an instance are those of the word arc it was made for (identity on
+the output of `instsOfArc`; applied explicitly so that the fact is available by construction) -/
+def stamp (i : Nat) (a : Arc) (h : Inst) : Inst := { h with arc := i, src := a.src, dst := a.dst }
+
+/-- all lists, concatenated; `none` as soon as one is missing -/
+def optFlatten : List (Option (List Inst)) → Option (List Inst)
+  | [] => some []
+  | none :: _ => none
+  | some l :: rest => (optFlatten rest).map (l ++ ·)
+
 def allInsts (M : Model) : Option (List Inst) :=
-  ((wordArcs M).mapM fun (i, a, w) => instsOfArc M i a w).map List.flatten
+  optFlatten ((wordArcs M).map fun (i, a, w) => (instsOfArc M i a w).map (List.map (stamp i a)))
 
 /-- costs of getting from FSG state `s` to FSG state `d` without a word: stay, or one null arc -/
 def hops (M : Model) (s d : Nat) : List Int :=
